@@ -28,6 +28,38 @@ type srcSpec struct {
 	// another, small buffer of the same implementation through that buffer's ReadFrom - while
 	// the outer ReadFrom is still in progress
 	nested bool
+	// withWriterTo: the source also offers io.WriterTo - with different content. ReadFrom is
+	// defined in terms of Read; a buffer that delegates to the source's WriteTo shows here
+	withWriterTo bool
+}
+
+// srcWT is a source that is an io.WriterTo as well (like a reader wrapping a *bytes.Reader and
+// overriding Read): its WriteTo delivers other bytes than its Read.
+type srcWT struct {
+	*src
+	wtCalls int
+}
+
+var writerToData = []byte("<<bytes that only WriteTo delivers>>")
+
+func (s *srcWT) WriteTo(w io.Writer) (int64, error) {
+	s.wtCalls++
+	n, err := w.Write(writerToData)
+	return int64(n), err
+}
+
+// sinkRF is a sink that is an io.ReaderFrom as well: WriteTo is defined in terms of Write.
+type sinkRF struct {
+	*sink
+	rfCalls int
+}
+
+func (s *sinkRF) ReadFrom(r io.Reader) (int64, error) {
+	s.rfCalls++
+	var b [7]byte
+	n, _ := r.Read(b[:])
+	s.got = append(s.got, "<<taken by ReadFrom>>"...)
+	return int64(n), nil
 }
 
 var (
@@ -64,6 +96,9 @@ func (s *srcSpec) String() string {
 	}
 	if s.nested {
 		t += " nested-ReadFrom-into-sibling"
+	}
+	if s.withWriterTo {
+		t += " also-an-io.WriterTo"
 	}
 	return t + "}"
 }
@@ -140,13 +175,19 @@ func (r *src) Read(p []byte) (int, error) {
 // sinkSpec describes a WriteTo sink: it accepts limit bytes in total and then fails
 // (or reports a short write without error), or claims more than it was given.
 type sinkSpec struct {
-	limit   int  // >= 0: accepts this many bytes, < 0: unlimited
-	short   bool // on hitting the limit: short count, nil error
-	over    bool // returns len(p)+1
-	errFull bool // accepts everything and still returns errSink
+	limit          int  // >= 0: accepts this many bytes, < 0: unlimited
+	short          bool // on hitting the limit: short count, nil error
+	over           bool // returns len(p)+1
+	errFull        bool // accepts everything and still returns errSink
+	withReaderFrom bool // the sink is an io.ReaderFrom as well
 }
 
 func (s *sinkSpec) String() string {
+	if s.withReaderFrom {
+		t := *s
+		t.withReaderFrom = false
+		return t.String() + "+io.ReaderFrom"
+	}
 	switch {
 	case s.over:
 		return "sink{overcount}"
